@@ -431,6 +431,34 @@ def generate():
     for tattr in ["#[educe(DerefMut)]", "#[educe(Deref)]", "#[educe(Deref, DerefMut)]"]:
         yield ("deref-field-missing", {"noDerefField"}, item("enum", "E", [tattr], []))
     yield ("into-field-missing", {"noIntoField", "noIntoImpl"}, item("enum", "E", ["#[educe(Into(u8))]"], []))
+    # ---- offences at a variant, for every trait x variant shape (unit too) x first / last variant
+    for t in ["Debug", "Clone", "Copy", "PartialEq", "Eq", "PartialOrd", "Ord", "Hash", "Default", "Deref", "DerefMut", "Into"]:
+        educed = {"Copy": "Clone, Copy", "Eq": "PartialEq, Eq", "DerefMut": "Deref, DerefMut", "Into": "Into(u8)"}.get(t, t)
+        one = t in ("Deref", "DerefMut", "Into")
+        other = "Hash" if t != "Hash" else "Debug"
+        for shape in ("unit", "tuple", "named"):
+            if one and shape == "unit":
+                continue
+            for vpos in (0, 2):
+                for va in ["Zzz", other, "a::b", "%s(zzz)" % t, "%s(bound(*))" % t, "%s(zzz = 1)" % t, "%s, %s" % (other, t), "%s, Zzz" % t]:
+                    if t == "Into" and va.startswith("Into("):
+                        continue
+                    vs = [("A", "tuple", ["#[educe(Default)]"] if t == "Default" else [], plain_fields("tuple", 1)), ("C", "named", [], plain_fields("named", 1))]
+                    vs.insert(vpos, ("B", shape, ["#[educe(%s)]" % va], plain_fields(shape, 1 if shape != "unit" else 0)))
+                    yield ("offence-at-variant", ANY, item("enum", "E", ["#[educe(%s)]" % educed], vs))
+    # ---- offences at a union field, for every trait a union supports
+    for educed in ["Debug(unsafe)", "PartialEq(unsafe)", "Hash(unsafe)", "Clone", "Clone, Copy", "Copy", "PartialEq(unsafe), Eq", "Eq", "Default"]:
+        names = [x.strip().split("(")[0] for x in educed.split(",")]
+        other = "Hash" if "Hash" not in names else "Debug"
+        for n in (2, 3):
+            for pos in (0, n - 1):
+                for fa in ["Zzz", other, "a::b"] + ["%s(zzz)" % names[-1], "%s = 1" % names[-1], "%s, %s" % (names[-1], names[-1])]:
+                    if names[-1] == "Default" and fa == "Default = 1":
+                        continue
+                    fs = with_attr(plain_fields("named", n, "u32"), pos, "#[educe(%s)]" % fa)
+                    if names[-1] == "Default" and not fa.startswith("Default,"):
+                        fs = with_attr(fs, 1 if pos == 0 else 0, "#[educe(Default)]")
+                    yield ("offence-at-union-field", ANY, item("union", "U", ["#[educe(%s)]" % educed], [("", "named", [], fs)]))
     # union fields accept nothing for Debug / PartialEq / Hash / Clone
     for t, a in [("Debug(unsafe)", "Debug(ignore)"), ("Debug(unsafe)", "Debug(method(m))"), ("Debug(unsafe)", "Debug = x"), ("PartialEq(unsafe)", "PartialEq(ignore)"),
                  ("PartialEq(unsafe)", "PartialEq(method(m))"), ("Hash(unsafe)", "Hash(method(m))"), ("Hash(unsafe)", "Hash = false"), ("Clone", "Clone(method(m))"),
